@@ -55,6 +55,13 @@ class PrimMixin(object):
         self.assume_internal(ctx, node, "unmodelled-call", name)
         return [(VSym(("ext", name, next_id())), st)]
 
+    def p_count(self, ctx, st, args, kwargs, node):
+        # itertools.count([start]) : an unbounded iterator of successive integers
+        start = args[0] if args else kwargs.get("start", VInt(0))
+        if not isinstance(start, VInt):
+            return None
+        return [(VSym(("count", next_id(), start.lin.key()), kind="count"), st)]
+
     def p_len(self, ctx, st, args, kwargs, node):
         l = self.length_of(st, args[0]) if args else None
         if l is None:
